@@ -224,7 +224,7 @@ Proof.
   intros comments before rest nl count Hs Hc Hr Hb Hnl. unfold extract_line_comment.
   rewrite app_assoc, (chomp_lf_spec _ nl (comment_body_no_lf before rest Hb Hr) Hnl).
   rewrite (find_comment_spec rest before [] false Hs (no_colon_end_ok _ Hc)). cbn [rev app].
-  cbv zeta. rewrite <- app_assoc. rewrite (replace_comment before rest _ nl Hs Hnl). reflexivity.
+  cbv zeta. reflexivity.
 Qed.
 
 Lemma extract_line_comment_spec : forall before rest nl count,
